@@ -185,7 +185,7 @@ def impl(case):
     if n == 1 and any(t > V / 2 for t in _first_pref_totals(case['votes']).values()):
         _tag(case, 'majority_winner')
     return {'result': result, 'quota': qstr(q), 'psc': psc, '_msg': msg, '_bad_draws': bad,
-            '_quotas': sorted(set(quotas))}
+            '_quotas': sorted({json.dumps(rec.get('quota')) for rec in counts if 'err' not in rec and not rec['shortcut']})}
 
 
 def oracle(case, obs):
@@ -201,7 +201,8 @@ def oracle(case, obs):
     # the quota in force is the textbook value of the configured quota (computed here, not taken from votelib)
     want_q = ref_quota(case, sum((Fraction(w) for _, w in case['votes']), Fraction(0)), n)
     for got in obs.get('_quotas', []):
-        if Fraction(got) != want_q:
+        got = json.loads(got)
+        if (None if got is None else Fraction(got)) != want_q:
             out.append(('quota_value', f'quota {got} used, the configured quota is {want_q}'))
             break
     if isinstance(res, dict):
